@@ -887,7 +887,8 @@ impl World {
             // a block whose transaction (and log) indices cross 255 -> 256
             BIG_BLOCKS.fetch_add(1, std::sync::atomic::Ordering::Relaxed);
             let blk = self.block_ctx(d);
-            let n = self.rng.range(257, 300);
+            // ... and now and then four-digit counts
+            let n = if self.rng.chance(1, 4) { self.rng.range(1025, 1100) } else { self.rng.range(257, 300) };
             let pk = self.pks[0].clone();
             let tool = self.tools[0].clone();
             for i in 0..n {
